@@ -70,8 +70,31 @@ def _map(x, f):
     return f(x)
 
 
+def _provably_pos(c, e):
+    sol = z3.Solver()
+    sol.set("timeout", 1500)
+    for h in c.hypotheses():
+        sol.add(h)
+    sol.add(z3.Not(e > 0))
+    return sol.check() == z3.unsat
+
+
 def log_scalar(x):
+    if isinstance(x, Sym) and z3.is_app(x.e):
+        # log of a quotient / product of provably positive terms is expanded (normal form for sums of logs)
+        c = ctx()
+        k = x.e.decl().kind()
+        ch = x.e.children()
+        if k == z3.Z3_OP_DIV and all(_provably_pos(c, S.to_real(t)) for t in ch):
+            return S.sub(log_scalar(S.wrap(ch[0])), log_scalar(S.wrap(ch[1])))
+        if k == z3.Z3_OP_MUL and len(ch) <= 4 and all(_provably_pos(c, S.to_real(t)) for t in ch):
+            r = log_scalar(S.wrap(ch[0]))
+            for t in ch[1:]:
+                r = S.add(r, log_scalar(S.wrap(t)))
+            return r
     if not isinstance(x, Sym):
+        if S.pynum(x) == 1 and ctx() is not None and not ctx().concrete:
+            return 0.0
         x = S.pynum(x)
         if not ctx() or ctx().concrete:
             if x != x or x < 0:
@@ -778,14 +801,46 @@ def np_permutation(n):
 
 
 def py_sorted(I, x, key, reverse):
-    items = I.concrete_iter(x, "sorted")
+    """sorted(): stable; with symbolic keys the order is decided by case split on the comparisons"""
     if reverse:
         raise Unsupported("sorted reverse")
+    if I.symbolic_length(x) is not None:
+        return sorted_symbolic(I, x, key)
+    items = I.concrete_iter(x, "sorted")
     keys = [I.call(key, [it]) if key is not None else it for it in items]
     if all(not isinstance(unwrap(k), z3.ExprRef) for k in keys):
         order = sorted(range(len(items)), key=lambda i: unwrap(keys[i]))
         return [items[i] for i in order]
-    raise Unsupported("sorted() with symbolic keys (needs contract)")
+    if len(items) > 5:
+        raise Unsupported("sorted() of more than 5 items with symbolic keys")
+    order = []
+    for i in range(len(items)):          # stable insertion sort, forking on each comparison
+        pos = len(order)
+        while pos > 0 and I.truth(S.cmp("<", keys[i], keys[order[pos - 1]])):
+            pos -= 1
+        order.insert(pos, i)
+    return [items[i] for i in order]
+
+
+def sorted_symbolic(I, x, key):
+    """sorted() of a symbolic-length list: a permutation of the items with non-decreasing keys (assumed
+    contract of the built-in; stability is not modelled)"""
+    c = ctx()
+    n = I.symbolic_length(x)
+    src = x.copy() if isinstance(x, SymList) else SymList(n, lambda i: I.iter_at(x, i))
+    tag = str(c.fresh("sortedp", "Int"))
+    p = z3.Function(tag, z3.IntSort(), z3.IntSort())
+    pinv = z3.Function(tag + "_inv", z3.IntSort(), z3.IntSort())
+    c.add_forall((n,), lambda a: z3.And(p(S.z(a)) >= 0, p(S.z(a)) < S.z(n), pinv(p(S.z(a))) == S.z(a),
+                                        pinv(S.z(a)) >= 0, pinv(S.z(a)) < S.z(n), p(pinv(S.z(a))) == S.z(a)), "sorted-perm")
+    keyf = (lambda it: I.call(key, [it])) if key is not None else (lambda it: it)
+    c.add_forall((n, n), lambda a, b: z3.Implies(S.z(a) <= S.z(b),
+                                                 S.z(keyf(src.at(Sym(p(S.z(a)))))) <= S.z(keyf(src.at(Sym(p(S.z(b))))))),
+                 "sorted-keys")
+    out = SymList(n, lambda i: src.at(Sym(p(S.z(i)))))
+    c.trace.append(("call", "sorted", src, out))
+    out.perm = p
+    return out
 
 
 @model("numpy.random.default_rng")
@@ -795,6 +850,22 @@ def np_default_rng(seed=None):
         import numpy as _np
         return _np.random.default_rng(seed)
     return RngModel("default_rng")
+
+
+@model("itertools.chain")
+def it_chain(*parts):
+    out = []
+    for p in parts:
+        if isinstance(p, SymList):
+            n = unwrap(p.length())
+            if not isinstance(n, int):
+                raise Unsupported("itertools.chain over a symbolic-length list")
+            out.extend(p.at(i) for i in range(n))
+        elif isinstance(p, Tensor):
+            out.extend(p[i] if p.ndim > 1 else p.at(i) for i in range(len(p)))
+        else:
+            out.extend(list(p))
+    return out
 
 
 @model("time.time")
